@@ -288,6 +288,9 @@ func c17History(k *core.Case) {
 			})
 			return
 		}
+		if st%8 == 3 {
+			pokeAccessors(long) // the SA is logged now and then
+		}
 		tr.Reset()
 		k.Eval(1)
 		rl := run(long)
